@@ -20,6 +20,7 @@ CONSTANTS
   GridNum = 10
   MeshExpand = 0
   MeshIncr = 1
+  Sloppy = TRUE
   NVals = 1
   Faults = FALSE
 INVARIANT BudgetRespected
